@@ -3,6 +3,7 @@
 //   L            lock(): take the write handle (private copy)          L!   ... T's copy constructor throws inside lock()
 //   w            write through the handle: value + 1                   g    read through the write handle
 //   U            release: destroy the write handle (publishes)         C    cancel()   (on a null handle: the no-op form)
+//   X            release from a destructor running during the stack unwinding of an unrelated exception (publishes too)
 //   V            move-construct the write handle (twice: out and back), with a cancel() on the moved-from handle in between
 //   S | St | Sf | Su   lock_shared / try_lock_shared / try_lock_shared_for / try_lock_shared_until: keep the snapshot
 //   r            re-read every snapshot held (the value must be the one seen at the first read, the object alive)
@@ -144,6 +145,19 @@ void thread_body(COW& g, const std::vector<std::string>& ops)
             }
         } else if (op == "U") {
             release();
+        } else if (op == "X") {
+            // the same release, made from a destructor that runs while an UNRELATED exception unwinds this thread's stack
+            // (a clean-up object that records its work in the cow_guarded): a release is a release, it publishes
+            struct Unwinding {
+                std::function<void()> f;
+                ~Unwinding() { f(); }
+            };
+            try {
+                Unwinding u{[&] { release(); }};
+                throw vpay::Injected();
+            }
+            catch (const vpay::Injected&) {
+            }
         } else if (op == "C") {
             if (live_handle()) {
                 verif::emit("call cancel");
@@ -330,7 +344,7 @@ static Script gen(Rng& r, int size)
                         ops.push_back("C");
                     }
                 }
-                ops.push_back("U");
+                ops.push_back(r.chance(1, 6) ? "X" : "U");
             } else {
                 ops.push_back(r.chance(1, 2) ? "S" : acq[r.below(4)]);
                 ++held;
@@ -359,6 +373,7 @@ int main(int argc, char** argv)
         parse("-;S,r,L,g,w,g,U,St,r,L,w,V,w,U,Sf,r,L,w,C,C,U,Su,r,D,r,D,D,L!,L,w,U,r,D,S,r"),
         // a snapshot that is the last reference of an old version: destroyed by the drop, not by the release
         parse("-;S,L,w,U,r,L,w,U,r,D,S,D"),
+        parse("-;S,L,w,X,r,L,w,w,X,S,r,D;S,r,L,w,X,r"),
         // readers parked inside lock_shared (registered, side flag loaded) while a writer releases: second wait loop
         parse("-;G4:rl0,S,r,D;W:g1,L,w,U"),
         parse("-;L,w,U,G4:rl1,S,r,D;W:g1,L,w,U"),
